@@ -154,6 +154,9 @@ pub struct Field {
     pub type_override: Option<String>,
     /// `#[ts(as = "<the same type>")]`
     pub as_same: bool,
+    /// `#[ts(as = "<this other type>")]`
+    #[serde(default)]
+    pub as_type: Option<TyExpr>,
     pub docs: Option<Doc>,
 }
 
